@@ -167,8 +167,8 @@ def run_case(case, rec):
         import jax.numpy as jnp
         from .c19 import scripted_cls
         K = 64
-        val = scripted_cls()(stops=jnp.zeros(K, bool), crits=jnp.asarray(3.0 + 0.5 * np.arange(K)), improves=jnp.zeros(K, bool),
-                             k=jnp.asarray(0), call_every=2)
+        val = scripted_cls()(stops=jnp.zeros(K, bool), crits=jnp.asarray(3.0 + 0.5 * np.arange(K)), improves=jnp.asarray(np.arange(K) % 3 != 1),
+                             k=jnp.asarray(0), call_every=2)  # improvements are flagged, a stop is never requested
         rec.count("programs_with_validation_module")
 
     def run_solve(n_it, params, data, pdata, odata, opt_state):
